@@ -10,7 +10,7 @@ import (
 
 func init() {
 	register(&Rule{ID: "SPEC-range-index", Props: []string{"C08", "C09"}, Min: 3,
-		Doc: "E (exhaustive abstract evaluation over a small integer domain): the helpers that turn the position arguments of slice / splice / substring / substr into indices are pure integer functions of ToInteger(argument) and the length, so they are decided outright. For lengths 0..5 and arguments undefined, -Infinity, -7..7, +Infinity (as Value.number() saturates them) the SSA of valueToRangeIndex, rangeStartEnd and rangeStartLength is interpreted and compared with ES5: 15.4.4.10 / 15.5.4.13 steps 5-8 (relative indices: k = i < 0 ? max(len + i, 0) : min(i, len); an undefined end is len), 15.5.4.15 steps 5-7 (min(max(i, 0), len)), B.2.3 steps 3-6 (start relative, length min(max(ToInteger(length), 0), len - start), undefined length = +Infinity)",
+		Doc: "E (exhaustive abstract evaluation over a small integer domain): the helpers that turn the position arguments of slice / splice / substring / substr into indices are pure functions of ToInteger(argument) and the length that touch their operands only through comparisons, additions of the length and min / max - a finite set of orderings of {i, 0, len, len + i}, all of which occur for lengths 0..5 and arguments undefined, -Infinity, -7..7, +Infinity (as Value.number() saturates them). The SSA of valueToRangeIndex, rangeStartEnd and rangeStartLength is interpreted on that domain and compared with ES5: 15.4.4.10 / 15.5.4.13 steps 5-8 (relative indices: k = i < 0 ? max(len + i, 0) : min(i, len); an undefined end is len), 15.5.4.15 steps 5-7 (min(max(i, 0), len)), B.2.3 steps 3-6 (start relative, length min(max(ToInteger(length), 0), len - start), undefined length = +Infinity)",
 		Run: ruleSpecRangeIndex})
 }
 
@@ -677,7 +677,7 @@ func describeIntSlice(in *absInterp, v aval) string {
 
 func init() {
 	register(&Rule{ID: "SPEC-parseint-prefix", Props: []string{"C06", "C05", "C13"}, Min: 1,
-		Doc: "E (exhaustive abstract evaluation of the text handling of parseInt, 15.1.2.2 steps 3-13): for a set of inputs around the sign and the hexadecimal prefix (\"\", \"-\", \"+\", \"0x\", \"0X1f\", \"-0x1\", \"0x1g\", \"0xg\", \"00x1\", \"x1\", \"1\", \"10\", \"z\", \"7 \") and the radices 0, 1, 2, 10, 16, 36, 37 the function's own SSA decides which digit string and radix reach the numeric conversion (a hook that records them), with which sign, and when the answer is NaN; compared with the algorithm of the specification. A prefix test that needs one character too many (`parseInt(\"0x\")` is NaN, not 0), is case-sensitive, or is applied for radix 10 shows up here",
+		Doc: "E (exhaustive abstract evaluation of the text handling of parseInt, 15.1.2.2 steps 2-13): the algorithm looks at characters only through comparisons with constants (the two signs, `0`, `x` / `X`, the digit classes of the radix, white space), so one representative per class is a sound quotient of the alphabet: every string of length <= 3 over + - 0 x X 1 9 f g space _ (and some longer ones around the prefix), for the radices 0, 1, 2, 10, 16, 36, 37 - about 10000 cases. The function's own SSA decides which digit string and radix reach the numeric conversion (a hook that records them), with which sign, and when the answer is NaN; compared with the algorithm of the specification. A prefix test that needs one character too many (`parseInt(\"0x\")` is NaN, not 0), is case-sensitive, strips several signs, or is applied for radix 10 shows up here",
 		Run: ruleSpecParseIntPrefix})
 }
 
@@ -765,7 +765,23 @@ func ruleSpecParseIntPrefix(c *Ctx, r *R) {
 	hooks["errors.Is"] = func(in *absInterp, call *ssa.CallCommon, args []aval) (aval, bool) { return aBool(false), true }
 	hooks["Is"] = hooks["errors.Is"]
 	in := newAbsInterp(hooks)
-	inputs := []string{"", "-", "+", "0x", "0X1f", "-0x1", "+0X", "0x1g", "0xg", "00x1", "x1", "1", "10", "z", "7 ", "0", "-7", "0x"}
+	// every string of length <= 3 over one representative per class of characters the algorithm distinguishes (signs, the
+	// prefix letters, digits below 2 / 10 / 16 / 36, white space, a non-digit), plus longer strings around the prefix
+	alphabet := []byte{'+', '-', '0', 'x', 'X', '1', '9', 'f', 'g', ' ', '_'}
+	inputs := []string{"", "0X1f", "-0x1", "+0X9", "0x1g", "00x1", "-0X-1", " -7", "0x7 ", "  0x", "0xfg"}
+	var gen func(prefix string, n int)
+	gen = func(prefix string, n int) {
+		if prefix != "" {
+			inputs = append(inputs, prefix)
+		}
+		if n == 0 {
+			return
+		}
+		for _, ch := range alphabet {
+			gen(prefix+string(ch), n-1)
+		}
+	}
+	gen("", 3)
 	radices := []int64{0, 1, 2, 10, 16, 36, 37}
 	n, bad, fail := 0, "", ""
 	for _, input = range inputs {
@@ -782,8 +798,8 @@ func ruleSpecParseIntPrefix(c *Ctx, r *R) {
 			}
 			// ES5 15.1.2.2
 			s := input
-			for len(s) > 0 && s[len(s)-1] == ' ' {
-				s = s[:len(s)-1]
+			for len(s) > 0 && s[0] == ' ' { // step 2: leading white space is skipped (trailing text just ends the digits)
+				s = s[1:]
 			}
 			sign := int64(1)
 			if len(s) > 0 && (s[0] == '+' || s[0] == '-') {
